@@ -66,6 +66,16 @@ CLAIMED = {
         "level": "Decides three necessary conditions and nothing temporal: (R1) the reconnect driver cannot be terminated by an exception [today violated - 2 known findings, reproduced]; (R2) each error state has a recovery edge and reset/locate/connect triggers line up [ERROR_SPA_NOT_FOUND has none - known finding]; (R3) an unanswered spa is reported from CONNECTED. Breaking any of them breaks self-healing; holding them does not prove it.",
         "note": "NOT decided - and not decidable by a static argument in reach: that recovery happens, within which bounded (virtual) time, after which fault scripts, and that the facade's values mirror the spa afterwards. Those clauses are the headline of the property and remain unverified here.",
     },
+    "C11": {
+        "technique": "guarded-subscript / definite-assignment analysis of the construction path (CFG guard atoms) giving the set of required item keys, joined exhaustively with the key sets of all 895 platform x cfg x log combinations; value-set interpretation of the label/reminder/watercare renderings over every byte",
+        "level": "Exhaustive over configurations: which items must exist for the facade to be constructed and its read-only members to evaluate is derived from the code (unguarded accessors[...] subscripts, attributes assigned only under `key in accessors`, None-able members of iterated device lists) and joined with every shipped combination - reproducing exactly the 18 combinations (9 table modules, recorded as known findings) that cannot be built. Label lookups, reminder type bytes 0..255 and watercare bytes 0..255 are evaluated exhaustively (one defect repaired).",
+        "note": "NOT decided: exception freedom of every member for arbitrary 1024-byte block contents beyond missing items, label lookups, reminder types and the watercare byte.",
+    },
+    "C12": {
+        "technique": "shape rules on the scan pipeline (order-preserving constructs only, stage contents), normalised-AST sibling comparison of the two scans, exhaustive table join for device state keys, constant folding of the automation key set",
+        "level": "Decides: the scan keeps table order (no set/sorted/reversed; order-preserving de-dup - defect in the blocking facade repaired), both scans identical after normalisation, each device list builds the class its filter names with the matched demand, DEVICES[d][2] exists for all wirings of all 895 combinations, all automation keys pairwise distinct, unique_id = parent-key, get_device/devices agree on one list.",
+        "note": "The stage rules read comprehensions only; a rewrite as explicit loops is reported as ANALYSIS-ERROR (unsupported idiom), not as a violation. NOT decided: exactness of prefix matching for label sets never shipped.",
+    },
 }
 
 NOT_APPLICABLE = {f"C{n:02d}": PENDING for n in range(1, 21) if f"C{n:02d}" not in CLAIMED}
